@@ -5,7 +5,7 @@
 use crate::model::{hex, Model};
 use crate::report::{catch, parallel, Report};
 use crate::rng::Rng;
-use crate::sim::{mk_doc, print_any, rand_any, rand_json_any, DocCfg, Replica};
+use crate::sim::{integrated_ids, internal_dump, mk_doc, print_any, print_id, rand_any, rand_json_any, rawhex, store_dump, DocCfg, Replica, ROOT_ARRAY, ROOT_TEXT, ROOT_XML};
 use serde_json::json;
 use std::collections::BTreeMap;
 use yrs::types::text::YChange;
@@ -269,12 +269,73 @@ fn run_case(seed: u64, index: u64, rich: bool, rep: &mut Report) {
     if rep.samples.len() < 2 { rep.sample(json!({"case": index, "rich": rich, "script": script.iter().take(25).collect::<Vec<_>>()})); }
 }
 
+
+// ------------------------------------------------------------------------------------------------ where local insertions land
+/// The Coq model's `local_op` (Crdt/Local.v: split_gap) predicts, from the item list before the call, the origin and the
+/// right origin of the unit a local insertion creates; the implementation's new item must carry exactly those.
+/// One replica, single-call transactions on the root text (plain + formatting), array and XML children, deletions in
+/// between so that tombstones and format markers surround the insertion points.
+fn placement_case(seed: u64, index: u64, md: &mut crate::model::Model, rep: &mut Report) {
+    use yrs::verif::{VBlock, VParent};
+    let mut r = Rng::for_case(seed, 403, index);
+    let gc = r.chance(1, 3);
+    let rp = Replica::new(5, DocCfg { gc, ..DocCfg::default() });
+    let (t, a, x) = (rp.doc.get_or_insert_text(ROOT_TEXT), rp.doc.get_or_insert_array(ROOT_ARRAY), rp.doc.get_or_insert_xml_fragment(ROOT_XML));
+    let name = format!("p{}", index);
+    md.ask(&format!("D new {}", name));
+    let mut script: Vec<String> = vec![format!("gc={}", gc)];
+    let mut tag = 0u64;
+    for _step in 0..r.range(10, 40) {
+        rp.drain1(); rp.drain2();
+        let before = store_dump(&rp.doc);
+        let ids = integrated_ids(&before);
+        let clock = rp.doc.transact().state_vector().get(&yrs::block::ClientID::new(5));
+        let live_units = |root: &str| -> u32 { before.branches.iter().filter(|b| matches!(&b.id, VParent::Root(n) if n == root)).flat_map(|b| b.seq.iter()).filter(|it| !it.deleted && it.countable).map(|it| it.len).sum() };
+        let mut predict: Option<(String, u32)> = None;   // (sequence key in the model's syntax, live index)
+        let mut direct = false;                           // Branch::insert_at (XML children): no move over following tombstones
+        match r.below(10) {
+            0..=2 => { let n = live_units(ROOT_TEXT); let i = r.below(n as u64 + 1) as u32; let s = if r.chance(1, 2) { "ab" } else { "c" }; script.push(format!("t.insert({i},{s:?})")); t.insert(&mut rp.doc.transact_mut(), i, s); predict = Some((format!("R{}", rawhex(ROOT_TEXT.as_bytes())), i)); }
+            3 => { let n = live_units(ROOT_TEXT); if n > 0 { let i = r.below(n as u64) as u32; let l = r.range(1, (n - i).min(3) as u64) as u32; script.push(format!("t.remove_range({i},{l})")); t.remove_range(&mut rp.doc.transact_mut(), i, l); } }
+            4 => { let n = live_units(ROOT_TEXT); if n > 0 { let i = r.below(n as u64) as u32; let l = r.range(1, (n - i).min(3) as u64) as u32; let mut at = yrs::types::Attrs::new(); at.insert("b".into(), if r.chance(1, 3) { Any::Null } else { Any::Bool(true) }); script.push(format!("t.format({i},{l},b)")); t.format(&mut rp.doc.transact_mut(), i, l, at); } }
+            5..=6 => { let n = live_units(ROOT_ARRAY); let i = r.below(n as u64 + 1) as u32; tag += 1; script.push(format!("a.insert({i},{tag})")); a.insert(&mut rp.doc.transact_mut(), i, Any::Number(tag as f64)); predict = Some((format!("R{}", rawhex(ROOT_ARRAY.as_bytes())), i)); }
+            7 => { let n = live_units(ROOT_ARRAY); if n > 0 { let i = r.below(n as u64) as u32; let l = r.range(1, (n - i).min(3) as u64) as u32; script.push(format!("a.remove_range({i},{l})")); a.remove_range(&mut rp.doc.transact_mut(), i, l); } }
+            8 => { let n = live_units(ROOT_XML); let i = r.below(n as u64 + 1) as u32; script.push(format!("x.insert({i},<p>)")); x.insert(&mut rp.doc.transact_mut(), i, XmlElementPrelim::empty("p")); predict = Some((format!("R{}", rawhex(ROOT_XML.as_bytes())), i)); direct = true; }
+            _ => { let n = live_units(ROOT_XML); if n > 0 { let i = r.below(n as u64) as u32; script.push(format!("x.remove_range({i},1)")); x.remove_range(&mut rp.doc.transact_mut(), i, 1); } }
+        }
+        if let Some((key, i)) = predict {
+            let want = md.ask(&format!("D localop {} {} {} {}{}", name, ids, key, i, if direct { " direct" } else { "" }));
+            let after = store_dump(&rp.doc);
+            // the created unit: the item that starts at the old clock, or - when the run was squashed into its predecessor -
+            // the unit inside that block (its origin is then the preceding unit)
+            let created = after.blocks.iter().filter(|(c, _)| *c == 5).flat_map(|(_, bl)| bl.iter()).find_map(|b| match b {
+                VBlock::Item(it) if it.id.clock <= clock && clock < it.id.clock + it.len => { let mut it = it.clone(); if it.id.clock < clock { it.origin = Some(yrs::ID::new(it.id.client, clock - 1)); } Some(it) } _ => None });
+            rep.add("placements_compared", 1);
+            match created {
+                Some(it) => {
+                    let got = format!("ok {} {}", it.origin.map(|i| print_id(&i)).unwrap_or_else(|| "-".into()), it.right_origin.map(|i| print_id(&i)).unwrap_or_else(|| "-".into()));
+                    if got != want { rep.disagree(json!({"class": "origins-of-a-local-insertion-differ-from-the-model", "implementation": got, "model": want, "call": script.last(), "script": script, "items_before": internal_dump(&before), "case": {"stream": 403, "index": index, "seed": seed}})); break; }
+                }
+                None => { rep.fail(json!({"property": "C03", "class": "local-insertion-created-no-item", "call": script.last(), "script": script, "case": {"stream": 403, "index": index, "seed": seed}})); break; }
+            }
+        }
+        for u in rp.drain1() { let a = md.ask(&format!("D apply {} {}", name, crate::model::hex(&u))); if !a.starts_with("ok") { rep.disagree(json!({"class": "model-rejects-emitted-update", "model": a, "script": script})); } }
+    }
+    rep.evaluations += 1;
+    rep.nontrivial_case(&format!("place:{}", index));
+}
+
 pub fn run(prop: &str, tier: &str, seed: u64, workers: usize) -> Report {
     let n = if tier == "thorough" { 5000 } else { 300 };
     let props: Vec<&str> = if prop == "C17" { vec!["C17"] } else { vec!["C03"] };
     let mut total = parallel(workers, |w, nw| {
         let mut rep = Report::default();
+        let mut md: Option<crate::model::Model> = None;
         for ci in 0..n { if ci as usize % nw != w { continue; }
+            if prop == "C03" {
+                if md.is_none() { md = Some(crate::model::Model::spawn()); }
+                let res = { let m = md.as_mut().unwrap(); catch(std::panic::AssertUnwindSafe(|| { let mut r2 = Report::default(); placement_case(seed, ci, m, &mut r2); r2 })) };
+                match res { Ok(r2) => rep.merge(r2), Err(e) => { md = None; rep.evaluations += 1; rep.fail(json!({"property": prop, "class": "panic", "error": e, "case": {"stream": 403, "index": ci}})); } }
+            }
             for rich in [false, true] {
                 match catch(std::panic::AssertUnwindSafe(|| { let mut r2 = Report::default(); run_case(seed, ci, rich, &mut r2); r2 })) {
                     Ok(mut r2) => { let fs = std::mem::take(&mut r2.failures); r2.class_counts.clear(); for f in fs { if props.contains(&f.get("property").and_then(|p| p.as_str()).unwrap_or("")) { r2.fail(f); } else { r2.count("failures_of_the_sibling_property"); } } rep.merge(r2) }
@@ -284,6 +345,6 @@ pub fn run(prop: &str, tier: &str, seed: u64, workers: usize) -> Report {
         }
         rep
     });
-    total.notes.push("single-replica programs of 10..60 transactions x 1..4 calls (text insert / push / remove_range [/ insert_with_attributes / format / insert_embed in the rich stream], array insert / insert_range / push_back / push_front / remove / remove_range / nested map+text prelims edited through fresh references, map insert / remove / try_update / clear / nested array / get_or_init, XML children and attributes), random offset kind (UTF-16 / bytes, positions on character boundaries of a multi-byte alphabet incl. astral characters) and gc on/off; after every transaction all roots are read back through every accessor (len, iter, get(i) incl. out of range, to_json, keys/values/contains_key/get, diff / get_string, XML children / get / first_child / siblings forward and backward / parent / successors / attributes) and compared with plain reference structures and with each other".into());
+    total.notes.push("single-replica programs of 10..60 transactions x 1..4 calls (text insert / push / remove_range [/ insert_with_attributes / format / insert_embed in the rich stream], array insert / insert_range / push_back / push_front / remove / remove_range / nested map+text prelims edited through fresh references, map insert / remove / try_update / clear / nested array / get_or_init, XML children and attributes), random offset kind (UTF-16 / bytes, positions on character boundaries of a multi-byte alphabet incl. astral characters) and gc on/off; after every transaction all roots are read back through every accessor (len, iter, get(i) incl. out of range, to_json, keys/values/contains_key/get, diff / get_string, XML children / get / first_child / siblings forward and backward / parent / successors / attributes) and compared with plain reference structures and with each other; C03 additionally: single-call insertions on the root text (with formatting markers and tombstones around), array and XML children whose created item must carry exactly the origin and right origin the Coq model (Crdt/Local.v local_op / split_gap) predicts from the item list before the call".into());
     total
 }
